@@ -497,6 +497,9 @@ def run_pipeline(case, res):
     res.nontrivial = state['checked'] > 0
     res.fingerprint = fp('pipeline', case['pipeline'])
     res.observed = dict(state)
+    if monitor.ERRORS:
+        res.status = 'harness_error'
+        res.detail = monitor.ERRORS[0]
     if violations:
         res.violation(violations[0])
 
